@@ -18,7 +18,10 @@ func init() {
 			"post-processors in this family only observe (a substituting processor legitimately moves the init calls to the substitute: C03's territory)",
 			"n <= 3 (thorough: 4 over two edge kinds)",
 		},
-		Parts: []Part{{Name: "lifecycle", Run: c05Run, QuickS: 160, ThoroughS: 1500}},
+		Parts: []Part{
+			{Name: "lifecycle", Run: c05Run, QuickS: 160, ThoroughS: 1500},
+			{Name: "failed-attempt-and-retry", Run: c05Retry, QuickS: 60, ThoroughS: 120},
+		},
 	})
 }
 
